@@ -237,6 +237,31 @@ func genC02(e *emitter, tier string, seed uint64) map[string]interface{} {
 									e.fail(i3, fmt.Sprintf("decode_accepts_stream:v%d", version), fmt.Sprintf("streaming decode of a spec frame (cap=%d pre=%d) differs from the layout's values", capacity, pre))
 								}
 							}
+							// … and however the frame arrives: in two pieces (two random cuts per frame; EVERY cut for the frames with metadata
+							// or a trailer of the first test case per version x type) the streaming decoder waits for the whole frame
+							cutsTwo := []int{}
+							if len(frame) > 1 {
+								cutsTwo = append(cutsTwo, 1+rg.intn(len(frame)-1), 1+rg.intn(len(frame)-1))
+								if k == 0 && reserve == 0 && (verify == 1 || len(f.md) > 0) && len(frame) <= 600 {
+									for c := 1; c < len(frame); c++ {
+										cutsTwo = append(cutsTwo, c)
+									}
+								}
+							}
+							for _, c := range cutsTwo {
+								var gzs []gzEntry
+								if gzip == 1 {
+									gzs = []gzEntry{gzEntryFor(f.body)}
+								}
+								chunks := []int{c, len(frame) - c}
+								sr := runStream(version, protocol.CodecJSON, 32, 5, chunks, frame)
+								line := fmt.Sprintf("stream v=%d codec=2 cap=%d pre=%d chunks=%s hex=%s%s", version, 32, 5, chunkList(chunks), hexSpec(frame).String(), gztToken(gzs))
+								i3 := e.op(line, sr.text, "decoder/stream-two-pieces", true)
+								if len(sr.packets) != 1 || sr.packets[0] != showPacket(q) {
+									e.fail(i3, fmt.Sprintf("decode_accepts_stream:v%d", version), fmt.Sprintf("streaming decode of a spec frame of %d bytes fed in two pieces cut at %d differs from the layout's values", len(frame), c))
+									break
+								}
+							}
 							// every strict prefix of a valid frame is rejected by the one-shot decoder
 							if tcase%7 == 0 || thorough {
 								for cut := 0; cut < len(frame); cut++ {
